@@ -228,6 +228,7 @@ let () =
         (* harness-only actions that must not change any result: a change of the working directory after the reads of
            the scenario, and a permission requirement every file of the harness satisfies *)
         | ["chdir"; _] -> print_endline "rc=0"
+        | ["cbnest"; _; _; _; _] -> print_endline "rc=0"
         | ["readfile"; _; p; dl; cm] when p = "-" || dl = "-" || cm = "-" ->
             (* econf_readFile with a NULL file name, delimiter or comment argument: refused, no object *)
             print_endline "rc=1 obj=0 checks= opens="
@@ -245,7 +246,7 @@ let () =
                    (String.concat "" (List.map (fun kf -> " || " ^ show_out (ODump kf)) files)))
         | ["tool"; cmd; arg; dl; cm] ->
             let f = (match cmd with "show" -> tool_show | "syntax" -> tool_syntax | _ -> tool_cat) in
-            let r = f (!w).w_tree (dec arg) (dec dl) (dec cm) in
+            let r = f (!w).w_tree (dec arg) (cli_delims (dec dl)) (dec cm) in
             Printf.printf "exit=%d stdout=%s err=%s\n" (int_of_n r.to_exit) (enc r.to_stdout) (enc_opt r.to_errline)
         | ["grammar"; o; path; dl; cm; ast] ->
             let (s', r) = grammar_cmd (!w).w_store (nat_of_int (int_of_string o)) dl cm ast path in
